@@ -701,7 +701,9 @@ def ccsds_case(draw, shard, tier):
     if kind in ("opm", "omm", "oem") and Y == "UTC":
         Y = iers.SCALES[draw(st.integers(1, 5))]
     case = dict(us=us, kind=kind, n=n, step=step, Y=Y, others=others, fmt=draw(st.sampled_from(["kvn", "xml"])),
-                via=draw(st.sampled_from(["dumps", "dumps", "dump-file"])))
+                via=draw(st.sampled_from(["dumps", "dumps", "dump-file"])),
+                # which points of an ephemeris carry a covariance (written with an EPOCH of its own)
+                covs=[draw(st.integers(0, 3)) == 0 for _ in range(n)] if draw(st.booleans()) else [False] * n)
     if kind == "omm":
         case["tle"] = draw(tle_elements())
     else:
@@ -747,6 +749,12 @@ def check_ccsds(case):
             labels.append(L)
             orbs.append(cart_orbit(dict(case["el"]), date_of(us + k * step, L), None))
             orbs[-1][:] = tb.propagate_uv(cart0, k * step / 1e6, MU_E)
+        covs = case.get("covs") or [False] * case["n"]
+        for k, o in enumerate(orbs):
+            if covs[k]:
+                from beyond.orbits.cov import Cov
+
+                o.cov = Cov(o, np.diag([100.0 + k, 400.0, 900.0, 0.01, 0.04, 0.09]), o.frame)
         obj = Ephem(orbs)
         obj.name, obj.cospar_id = "VERIF", "1998-067A"
         dates = [o.date for o in orbs]
@@ -777,6 +785,14 @@ def check_ccsds(case):
         got = [back.date]
     if len(got) != len(dates):
         raise Violation("ccsds-count", f"{what}: {len(got)} dates read back, {len(dates)} written")
+    if kind.startswith("oem") and any(case.get("covs") or []):
+        # a covariance is written with an EPOCH of its own and re-attached by it: it must come back on its own point
+        has = [getattr(o, "cov", None) is not None for o in back]
+        vals = [round(float(np.asarray(o.cov)[0, 0])) - 100 if h else None for o, h in zip(back, has)]
+        want = [k if c else None for k, c in enumerate(case["covs"])]
+        if vals != want:
+            raise Violation("ccsds-oem-covariance-epoch", f"{what}: covariances written on points "
+                            f"{[k for k, c in enumerate(case['covs']) if c]} come back on {vals} (index carried in C[0,0])")
     mixed = len(set(labels)) > 1
     # a UT1 / TDB date prints a reading that may be 1 us off the one it was built from (C03, 2 us)
     tol = 2 if inexact(*labels) else 0
